@@ -19,6 +19,9 @@ const (
 	// maxRTPPacketSize represents the maximum size of an RTP packet buffer.
 	// This is a reasonable upper bound for typical RTP packets.
 	maxRTPPacketSize = 1500
+	// maxMediaPackets03 is the number of media packets the FlexFEC-03 masks can name:
+	// 15 + 31 + 63 bits (mask [0-14], [15-45] and [46-108]).
+	maxMediaPackets03 = 109
 )
 
 var bufferPool = sync.Pool{ //nolint:gochecknoglobals
@@ -59,6 +62,11 @@ func NewFlexEncoder03(payloadType uint8, ssrc uint32) *FlexEncoder03 {
 func (flex *FlexEncoder03) EncodeFec(mediaPackets []rtp.Packet, numFecPackets uint32) []rtp.Packet {
 	// Check if mediaPackets is empty
 	if len(mediaPackets) == 0 {
+		return nil
+	}
+
+	// The FlexFEC-03 masks can only name 109 packets, a larger batch can't be protected.
+	if len(mediaPackets) > maxMediaPackets03 {
 		return nil
 	}
 
